@@ -93,7 +93,9 @@ impl<'i> Iterator for Parser<'i> {
     fn next(&mut self) -> Option<Self::Item> {
         let res = self.parse_next();
         if res.is_err() {
+            // an error ends the iteration: drop the remaining input and the pending state
             self.input = &[];
+            self.pending_list_entries = 0;
         }
         match res {
             Ok(None) => None,
